@@ -1,46 +1,54 @@
 #!/bin/bash
 # Shell reproducers of the findings of the `clipath` slice (C19, path logic of the CLI).
+# P1..P5 were repaired in /repo (df40178, ffa444d, 35270d9, f45672a): the lines below now show the repaired
+# behaviour (kept as a manual regression check).  P5 was repaired in f45672a.
 # usage: clipath_findings.sh <path to the kanzi binary>     (works in a fresh temporary directory)
 K=${1:-kanzi}
 W=$(mktemp -d "${TMPDIR:-/tmp}/clipath-findings.XXXXXX") || exit 1
 cd "$W" || exit 1
 say() { printf '\n=== %s\n' "$*"; }
 
-say "P1 -i ./T -o out: output names lose their first bytes (expected out/abcdef.knz, out/sub/ghijkl.knz)"
+say "P1 (repaired) -i ./T -o out: expected out/abcdef.knz, out/sub/ghijkl.knz (was out/cdef.knz, out/b/ghijkl.knz)"
 mkdir -p p1/T/sub p1/out; echo AAAA > p1/T/abcdef; echo BBBB > p1/T/sub/ghijkl
 (cd p1 && $K -c -i ./T -o out -j 1 >/dev/null; echo "exit status $?"; find out -type f | sort)
 
-say "P1b two inputs, ONE output, exit status 0 with -f (expected out/xxq.knz and out/yyq.knz); status 7 without -f"
-mkdir -p p1b/T p1b/out p1b/out2; echo 1111 > p1b/T/xxq; echo 2222 > p1b/T/yyq
-(cd p1b && $K -c -i ./T -o out -f -j 1 >/dev/null; echo "exit status $?"; find out -type f | sort
- $K -c -i ./T -o out2 -j 1 >/dev/null; echo "without -f: exit status $?")
+say "P1b (repaired) expected out/xxq.knz and out/yyq.knz (was ONE output q.knz, exit status 0 with -f)"
+mkdir -p p1b/T p1b/out; echo 1111 > p1b/T/xxq; echo 2222 > p1b/T/yyq
+(cd p1b && $K -c -i ./T -o out -f -j 1 >/dev/null; echo "exit status $?"; find out -type f | sort)
 
-say "P1c one-letter name: run-time fault, exit status 127 (expected out/a.knz)"
+say "P1c (repaired) one-letter name: expected out/a.knz (was a slice bounds fault, exit status 127)"
 mkdir -p p1c/T p1c/out; echo a > p1c/T/a
-(cd p1c && $K -c -i ./T -o out -j 1 | tail -1; echo "exit status ${PIPESTATUS[0]}")
+(cd p1c && $K -c -i ./T -o out -j 1 | tail -1; echo "exit status ${PIPESTATUS[0]}"; ls out)
 
-say "P1d the same with '.', 'T//', 'T/../T' and on decompression"
+say "P1d (repaired) the same with '.', 'T//', 'T/../T' and on decompression: expected abcdef.knz / abcdef everywhere"
 mkdir -p p1d/T p1d/o1 p1d/o2 p1d/o3 p1d/C p1d/D; echo hello > p1d/T/abcdef
 (cd p1d/T && $K -c -i . -o ../o1 -j 1 >/dev/null; echo ". : exit status $?"; ls ../o1)
 (cd p1d && $K -c -i T// -o o2 -j 1 >/dev/null; echo "T// : exit status $?"; ls o2
- $K -c -i T/../T -o o3 -j 1 | tail -1; echo "T/../T : exit status ${PIPESTATUS[0]}"; ls o3
+ $K -c -i T/../T -o o3 -j 1 >/dev/null; echo "T/../T : exit status $?"; ls o3
  $K -c -i T -o C -j 1 >/dev/null; $K -d -i ./C -o D -j 1 >/dev/null; echo "decompress -i ./C: exit status $?"; ls D)
 
-say "P2 in place, tree {x, x.knz}, -f: the user's file x.knz is overwritten by the compressed x (exit status 0)"
+say "P2 (repaired) in place, tree {x, x.knz}, -f: expected a refusal (status 7), nothing modified (was: x.knz overwritten, exit status 0)"
 mkdir p2; printf 'content of x\n' > p2/x; printf 'content of x.knz (a plain user file)\n' > p2/x.knz
-sha256sum p2/x.knz | cut -c1-16
-$K -c -i p2 -f -j 4 >/dev/null; echo "exit status $?"
+$K -c -i p2 -f -j 4 | tail -2; echo "exit status ${PIPESTATUS[0]}"
 for f in p2/*; do echo "$f $(stat -c %s $f) $(sha256sum < $f | cut -c1-16)"; done
-echo "x.knz.knz decodes to:"; $K -d -i p2/x.knz.knz -o stdout -j 1 | head -c 60 | od -c | head -2
-echo "(-j 1 happens to compress x.knz first; then 'kanzi -d -i p2 -f' truncates x before it finds x.knz invalid)"
 
-say "P3 decompression: a.knz and a.KNZ are both written to 'a'; with -f --rm both sources are deleted, one content survives"
+say "P3 (repaired) decompression of a.knz and a.KNZ with -f --rm: expected a refusal (status 7), both sources kept"
 mkdir -p p3/S; printf 'first\n' > p3/S/a; printf 'second\n' > p3/S/b
 $K -c -i p3/S --rm -j 1 >/dev/null; mv p3/S/b.knz p3/S/a.KNZ; mkdir p3/D
-$K -d -i p3/S -o p3/D -f --rm -j 1 >/dev/null; echo "exit status $?"; find p3 -type f | sort; cat p3/D/a
+$K -d -i p3/S -o p3/D -f --rm -j 1 | tail -2; echo "exit status ${PIPESTATUS[0]}"; find p3 -type f | sort
 
-say "P4 'kanzi -d -i none.knz --rm' in the working directory: nothing is written, the source is deleted, exit status 0"
-mkdir p4; printf 'precious\n' > p4/none; (cd p4 && $K -c -i none --rm >/dev/null && $K -d -i none.knz --rm >/dev/null; echo "exit status $?"; ls -A | wc -l)
+say "P4 (repaired) 'kanzi -d -i none.knz --rm' in the working directory: expected the file ./none"
+mkdir p4; printf 'precious\n' > p4/none; (cd p4 && $K -c -i none --rm >/dev/null && $K -d -i none.knz --rm >/dev/null; echo "exit status $?"; ls -A; cat none)
+
+say "P5 (repaired) last element of -i ends with a dot: -i T. -o out: expected out/abc.knz (was out/../T./abc.knz = T./abc.knz)"
+mkdir -p p5/T. p5/out; echo hello > p5/T./abc
+(cd p5 && $K -c -i T. -o out -j 1 -v 3 | grep "Output file name"; echo "exit status ${PIPESTATUS[0]}"; find . -type f | sort)
+say "P5b (repaired) -i .. -o out from a sub-directory: expected out/x1.knz (was out/../x1.knz)"
+mkdir -p p5b/sub/out; echo hello > p5b/x1
+(cd p5b/sub && $K -c -i .. -o out -j 1 -v 3 | grep "Output file name"; echo "exit status ${PIPESTATUS[0]}"; cd ..; find . -type f | sort)
+say "P5c (repaired) -i T/.. -o out: expected out/x1.knz"
+mkdir -p p5c/T p5c/out; echo hello > p5c/x1
+(cd p5c && $K -c -i T/.. -o out -j 1 -v 3 | grep "Output file name"; echo "exit status ${PIPESTATUS[0]}"; find . -type f | sort)
 
 say "O1 several files to stdout: the first stream is written, then the run fails (13 compressing, 12 decompressing)"
 mkdir -p o1/T; echo a > o1/T/a; echo b > o1/T/b
